@@ -9,7 +9,7 @@ from ..gen import Scenario, op, send
 
 ID = "C02"
 BUDGET = {"quick": 40, "thorough": 600}
-MAX_RUNS = {"quick": 1500, "thorough": 300000}
+MAX_RUNS = {"quick": 8000, "thorough": 300000}
 TECHNIQUE = "deterministic simulation: concurrent requests against generated rule lists, observer on every upstream, independent first-match reference evaluator"
 RULE = ("plans: rule lists of 0-8 rules over a generated filter grammar (==, !=, <, >, =~, !~, _:, cidr_match, &&, ||, !, filters that error at run time, "
         "filterless rules, deny at any position, duplicates) x 2-4 connectors each wired to its own observable upstream (+ a TCP-only load balancer) x 1-6 "
